@@ -446,12 +446,27 @@ func iiEnumerate(m *hmap.IntIntMap, md *iiModel, object bool) error {
 				return fmt.Errorf("Keys() yields more than Size()=%d elements", len(md.m))
 			}
 			keys = append(keys, en.NextInt())
+			if i == 0 {
+				// other enumerations and a rendering started meanwhile are not modifications
+				if o := m.Values(); o.HasMoreElements() {
+					o.NextInt()
+				}
+				if o := m.Keys(); o.HasMoreElements() {
+					o.NextInt()
+				}
+				_ = m.ToString()
+			}
 		}
 		for en, i := m.Values(), 0; en.HasMoreElements(); i++ {
 			if i >= limit {
 				return fmt.Errorf("Values() yields more than Size()=%d elements", len(md.m))
 			}
 			vals = append(vals, en.NextInt())
+			if i == 0 {
+				if o := m.Keys(); o.HasMoreElements() {
+					o.NextInt()
+				}
+			}
 		}
 	} else {
 		ek, ok := m.Keys().(hmap.Enumeration)
@@ -891,6 +906,19 @@ func ikEnumerate(m *hmap.IntKeyMap, md map[int32]interface{}) error {
 			return fmt.Errorf("Keys() yields more than Size()=%d elements", len(md))
 		}
 		keys = append(keys, en.NextInt())
+		if i == 0 {
+			// other enumerations and a rendering started meanwhile are not modifications
+			if o := m.Values(); o.HasMoreElements() {
+				o.NextElement()
+			}
+			if o := m.Entries(); o.HasMoreElements() {
+				o.NextElement()
+			}
+			if o := m.Keys(); o.HasMoreElements() {
+				o.NextInt()
+			}
+			_ = m.ToString()
+		}
 	}
 	if err := sameMultiset("Keys() enumeration", keys, ikKeys(md)); err != nil {
 		return err
@@ -902,6 +930,14 @@ func ikEnumerate(m *hmap.IntKeyMap, md map[int32]interface{}) error {
 		}
 		v := en.NextElement()
 		vals = append(vals, fmt.Sprintf("%T:%v", v, v))
+		if i == 0 {
+			if o := m.Keys(); o.HasMoreElements() {
+				o.NextInt()
+			}
+			if o := m.Entries(); o.HasMoreElements() {
+				o.NextElement()
+			}
+		}
 	}
 	for _, v := range md {
 		wantVals = append(wantVals, fmt.Sprintf("%T:%v", v, v))
@@ -918,6 +954,14 @@ func ikEnumerate(m *hmap.IntKeyMap, md map[int32]interface{}) error {
 		e, ok := en.NextElement().(*hmap.IntKeyEntry)
 		if !ok || e == nil {
 			return fmt.Errorf("Entries().NextElement() is not an *IntKeyEntry")
+		}
+		if i == 0 {
+			if o := m.Values(); o.HasMoreElements() {
+				o.NextElement()
+			}
+			if o := m.Entries(); o.HasMoreElements() {
+				o.NextElement()
+			}
 		}
 		if seen[e.GetKey()] {
 			return fmt.Errorf("Entries() yields key %d twice", e.GetKey())
@@ -1233,6 +1277,11 @@ func isEnumerate(s *hmap.IntSet, md map[int32]bool) error {
 			return fmt.Errorf("Values() yields more than Size()=%d elements", len(md))
 		}
 		got = append(got, en.NextInt())
+		if i == 0 {
+			if o := s.Values(); o.HasMoreElements() {
+				o.NextInt()
+			}
+		}
 	}
 	for k := range md {
 		want = append(want, k)
@@ -1440,6 +1489,11 @@ func ssEnumerate(s *hmap.StringSet, md map[string]bool) error {
 			return fmt.Errorf("Keys() yields more than Size()=%d elements", len(md))
 		}
 		got = append(got, en.NextString())
+		if i == 0 {
+			if o := s.Keys(); o.HasMoreElements() {
+				o.NextString()
+			}
+		}
 	}
 	for k := range md {
 		want = append(want, k)
